@@ -872,6 +872,38 @@ theorem inv_empty : Inv (Ent.empty : Ent A) [] where
   cache := by intro i v hv; simp [Ent.empty] at hv
   hcache := by intro i rs hr; simp [Ent.empty] at hr
 
+/-- `drop_aggregate` while no other store object remembers the entity: back to "absent". -/
+theorem Inv.drop {e : Ent A} {L : Log A} (h : Inv e L) (i : Nat) (hs : othersForgot e i) :
+    Inv (dropAggregate e i) [] where
+  cmds := by intro k; rfl
+  head := by intro c hc; simp at hc
+  tail := by intro k c _ hc; simp at hc
+  vers := by intro k c hc; simp at hc
+  total := by intro h0; exact absurd rfl h0
+  snap := by intro v hv; simp [dropAggregate] at hv
+  cache := by
+    intro j v hj
+    change alookup (aerase e.cache i) j = some v at hj
+    by_cases hji : j = i
+    · subst hji; simp [alookup_aerase_same] at hj
+    · rw [alookup_aerase_ne _ hji, (hs j hji).1] at hj; cases hj
+  hcache := by
+    intro j rs hj
+    change alookup (aerase e.hcache i) j = some rs at hj
+    by_cases hji : j = i
+    · subst hji; simp [alookup_aerase_same] at hj
+    · rw [alookup_aerase_ne _ hji, (hs j hji).2] at hj; cases hj
+
+theorem runH_refines {e : Ent A} {L : Log A} (hiv : A.initVersion ≤ 1) (h : Inv e L)
+    (ops : List (HOp A)) (hs : DropSafe e ops) : Inv (runH e ops) (specRunH L ops) := by
+  induction ops generalizing e L with
+  | nil => exact h
+  | cons o rest ih =>
+    simp only [runH, specRunH, List.foldl_cons]
+    cases o with
+    | op o' => exact ih (step_refines hiv h o').2 hs.2
+    | drop i => exact ih (h.drop i hs.1) hs.2
+
 theorem run_refines {e : Ent A} {L : Log A} (hiv : A.initVersion ≤ 1) (h : Inv e L)
     (ops : List (Op A)) : Inv (run e ops) (specRun L ops) := by
   induction ops generalizing e L with
